@@ -2,6 +2,7 @@ import HapVerif.Model.C18
 import HapVerif.Model.C18Hist
 import HapVerif.Model.C18Gw
 import HapVerif.Model.C18OAuth
+import HapVerif.Model.C18Cls
 import HapVerif.Generated.Facts
 import HapVerif.Drv.Common
 /-!
@@ -20,6 +21,11 @@ Driver of C18.  Case lines (see harness/cmd/hv/c18.go):
       LITERAL paths in two namespaces (see harness/cmd/hv/c18oauth.go): which published path
       `findBackend` takes for the oauth2-proxy is computed by the model (Model/C18OAuth.lean), the Spec
       `oaOracle` names the backends published at the uri prefix
+  `C18 cls <glob> <params> <svcanns> <ing>[,<ing>...] => <path>|...||<binds>`   a full converter Sync over
+      ingresses selected by ingressClassName, class c1 carrying `spec.parameters` -> ConfigMap (see
+      harness/cmd/hv/c18cls.go): what each path link ends with (Service, Ingress, class parameters) is
+      computed by the model (Model/C18Cls.lean), the Spec `clsOracle` is evaluated against the
+      declarations `specPaths` (a path's own sources, whatever shares its backend)
 
 The abstraction of the concrete annotation values of the harness grammar (what each auth-url means
 to `setAuthExternal`) is the table `urlOf` below.
@@ -820,6 +826,124 @@ def handleOa (glob ings impl : String) : Verdict :=
       | _ => bad "impl-output"
   | _, _ => bad "oa-parse"
 
+/-! ### class parameters mode: auth declared through IngressClass `spec.parameters`
+
+`<params>` = `<url>.<plc>.<oauth>.<signin>[.m]` (data of the ConfigMap of class c1; `.m`: auth-method too),
+`<svcanns>` = `-` | `<svc>:<ann>+...`, `<ing>` = `<class>~<ann>~<host>.<path>.<match>.<svc>+...` with class
+0 (none) | 1 (c1, parameters) | 2 (c2, no parameters).  Scope: placement `frontend` is never used (the host
+mapper receives neither Service annotations nor class parameters), oauth `m` neither. -/
+
+/-- when the tree under test merges the class parameters, read from the regenerated facts -/
+def currentClsMerge : ClsMerge :=
+  if Facts.c18ClassMergeConds.any (fun s => isInfix "!found".toList s.toList) then .firstOnly else .everyPath
+
+structure ClsPathTok where
+  host : Nat
+  path : Nat
+  mtch : String
+  svc : Nat
+deriving Repr, DecidableEq
+
+structure ClsIngTok where
+  cls : Nat
+  ann : String
+  paths : List ClsPathTok
+deriving Repr, DecidableEq
+
+def parseClsPath (s : String) : Option ClsPathTok :=
+  match s.splitOn "." with
+  | [h, p, m, v] => do pure { host := ← h.toNat?, path := ← p.toNat?, mtch := m, svc := ← v.toNat? }
+  | _ => none
+
+def parseClsIng (s : String) : Option ClsIngTok :=
+  match s.splitOn "~" with
+  | [c, a, ps] => do
+    let c ← c.toNat?
+    if c > 2 then none else pure { cls := c, ann := a, paths := ← (ps.splitOn "+").mapM parseClsPath }
+  | _ => none
+
+/-- an auth-url as `setAuthExternal` sees it: the service backend of a `svc://` URL is pre-built by
+`syncIngressHTTP` from the INGRESS annotation only (`annBack[ingtypes.BackAuthURL]`); `pre` = the auth
+services some Ingress annotation of the scenario names.  From the Service annotations or the class
+parameters alone the backend does not exist and the path is denied -/
+def clsUrl (xns : Bool) (pre : List String) (s : String) : Option UrlAnn :=
+  match (authLinkOf s).1 with
+  | some k => if pre.contains k then urlOf xns s else gwUrl xns s
+  | none => urlOf xns s
+
+/-- the keys of one source; `pub` = backend published at /oauth2 -/
+def clsAnnOf (xns : Bool) (pre : List String) (pub : Option String) (s : String) : Option AnnSet :=
+  match s.splitOn "." with
+  | [u, c, o, g] => do
+    if c = "f" || c = "F" || o = "m" then none
+    let sg ← (match g with | "-" => some false | "s" => some true | _ => none)
+    pure { url := ← clsUrl xns pre u, plc := ← plcOf c, oauth := ← gwOAuth pub o, signin := sg }
+  | _ => none
+
+def clsBase (q : ClsPathTok) : Option PathIn := do
+  let pn ← pathName q.path
+  let _ ← svcName q.svc
+  let hm ← (match q.mtch with | "b" => some "beg" | "p" => some "dir" | "e" => some "str" | _ => none)
+  let key := "h" ++ toString q.host ++ ".local#" ++ pn
+  pure { host := q.host, backend := q.svc, ord := q.host * 16 + q.path, key := key, hamatch := hm,
+         sub := if q.mtch = "e" then key else key ++ "/sub",
+         url := .absent, plc := .absent, oauth := .absent, signin := false }
+
+/-- the declared paths of one ingress with their sources -/
+def clsPathsOf (xns : Bool) (pre : List String) (pub : Option String) (pa : AnnSet) (svcl : List (Nat × AnnSet)) (g : ClsIngTok) :
+    Option (List ClsPath) := do
+  let ia ← clsAnnOf xns pre pub g.ann
+  g.paths.mapM fun (q : ClsPathTok) => do
+    let b ← clsBase q
+    let sa : AnnSet := match svcl.find? (fun (e : Nat × AnnSet) => e.1 = q.svc) with
+      | some e => e.2
+      | none => {}
+    pure ({ base := b, svcAnn := sa, ingAnn := ia, clsAnn := if g.cls = 1 then some pa else none } : ClsPath)
+
+def handleCls (glob params svcs ings impl : String) : Verdict :=
+  match parseGlob glob, (ings.splitOn ",").mapM parseClsIng with
+  | some (x, l, xns, rs, re), some toks =>
+    let allPaths := toks.flatMap (·.paths)
+    if !(allPaths.map fun q => (q.host, q.path)).Nodup then bad "cls-scope-duplicate-host-path" else
+    let pubNames := (allPaths.filter (·.path = 9)).filterMap fun q => (svcName q.svc).map fun n => "default_" ++ n ++ "_8080"
+    if pubNames.eraseDups.length > 1 then bad "cls-scope-two-oauth2-publishers" else
+    let pub := pubNames.head?
+    let pre := toks.filterMap fun g => (authLinkOf ((g.ann.splitOn ".").headD "-")).1
+    let params4 := match params.splitOn "." with
+      | [u, c, o, g, "m"] => ".".intercalate [u, c, o, g]
+      | _ => params
+    let svcl : Option (List (Nat × AnnSet)) :=
+      if svcs = "-" then some [] else (svcs.splitOn "+").mapM fun t =>
+        match t.splitOn ":" with
+        | [k, a] => do pure (← k.toNat?, ← clsAnnOf xns pre pub a)
+        | _ => none
+    match clsAnnOf xns pre pub params4, svcl with
+    | some pa, some svcl =>
+      let qs : Option (List ClsPath) := (toks.mapM (clsPathsOf xns pre pub pa svcl)).map List.flatten
+      match qs with
+      | none => bad "cls-parse"
+      | some qs =>
+        let w : World := { isExternal := x, hasLua := l, rangeStart := rs, rangeEnd := re, paths := effPaths currentClsMerge qs }
+        let wS : World := { w with paths := specPaths qs }
+        let outs := (hostOrders w (hostsOf w)).flatMap fun ho => (backOrders w (backendsOf w)).map fun bo =>
+          showState w (run currentVariant w ho bo)
+        let m := outs.headD ""
+        if impl = "PANIC" then { model := m, agree := false, oracle := some "panic-in-updater" } else
+        match impl.splitOn "||" with
+        | [ps, bs] =>
+          match (ps.splitOn "|").mapM parseObs, parseBinds bs with
+          | some obs, some binds =>
+            if obs.length ≠ qs.length then bad "impl-paths" else
+            let agreeing := outs.find? (· = impl)
+            { model := agreeing.getD m, agree := agreeing.isSome,
+              oracle := (clsOracle wS binds qs obs).orElse fun _ =>
+                if bindsOk w.rangeStart w.rangeEnd binds then none else some "auth-proxy-binds-inconsistent",
+              trivial := wS.paths.all fun p => !declared p }
+          | _, _ => bad "impl-output"
+        | _ => bad "impl-output"
+    | _, _ => bad "cls-parse"
+  | _, _ => bad "cls-parse"
+
 /-! ### entry -/
 
 def handle (args : List String) (impl : String) : Verdict :=
@@ -830,6 +954,7 @@ def handle (args : List String) (impl : String) : Verdict :=
   | ["hist", glob, ings, ops] => handleHist glob ings ops impl
   | ["gw", glob, gws, svcs, routes, ings] => handleGw glob gws svcs routes ings impl
   | ["oa", glob, ings] => handleOa glob ings impl
+  | ["cls", glob, params, svcs, ings] => handleCls glob params svcs ings impl
   | [glob, ings] =>
     match parseWorld glob ings with
     | none => bad "parse"
